@@ -16,6 +16,8 @@ import (
 	"github.com/ovh/kmip-go/ttlv"
 )
 
+var c02WithJSON = true
+
 // c02Unknown: the element to insert. knownTag: a tag the message's types know.
 func c02Unknown(kind int) ttlv.Value {
 	leaf := ttlv.Value{Tag: 0x540001, Value: int32(7)}
@@ -93,19 +95,25 @@ func c02DecodeAs(dir, enc int, b []byte) (reflect.Value, error) {
 	if dir == 0 {
 		var m RequestMessage
 		var err error
-		if enc == 0 {
+		switch enc {
+		case 0:
 			err = ttlv.UnmarshalTTLV(b, &m)
-		} else {
+		case 1:
 			err = ttlv.UnmarshalXML(b, &m)
+		default:
+			err = ttlv.UnmarshalJSON(b, &m)
 		}
 		return reflect.ValueOf(&m).Elem(), err
 	}
 	var m ResponseMessage
 	var err error
-	if enc == 0 {
+	switch enc {
+	case 0:
 		err = ttlv.UnmarshalTTLV(b, &m)
-	} else {
+	case 1:
 		err = ttlv.UnmarshalXML(b, &m)
+	default:
+		err = ttlv.UnmarshalJSON(b, &m)
 	}
 	return reflect.ValueOf(&m).Elem(), err
 }
@@ -128,6 +136,13 @@ func VerifC02_Nesting(dir, node, pos, kind int) {
 	xmlDoc := ttlv.MarshalXML(tree)
 	vb, errB := c02DecodeAs(dir, 0, bin)
 	vx, errX := c02DecodeAs(dir, 1, xmlDoc) // a panic here is a violation
+	if c02WithJSON {
+		vj, errJ := c02DecodeAs(dir, 2, ttlv.MarshalJSON(tree))
+		verifAssert("JSON and binary decoders agree on acceptance", (errB == nil) == (errJ == nil))
+		if errB == nil && errJ == nil {
+			verifAssert("JSON and binary decoders give the same value", vfEqual(vb, vj))
+		}
+	}
 	verifReach("decoded")
 	verifObserveBool("binary accepts", errB == nil)
 	verifObserveBool("xml accepts", errX == nil)
